@@ -22,6 +22,7 @@
   `(name, base, parameter size)` of `set_function`.
 -/
 import MdProofs.Lemmas.SymBridgeFill
+import MdProofs.Lemmas.SymBridgeWin
 import MdProofs.C05
 namespace MdModel.SymBridge
 open MdModel MdModel.RangeMap
@@ -87,23 +88,11 @@ theorem paramSize_of_agree {wt : Walk.WinTables} {csf : Symbolize.SymFile} {a : 
     | some v => rfl
     | none => rfl
 
-/- FULL STATEMENT (not closed in this round — `walk_fillW_eq_c11`):
-     for `WinRel wins r` (C11's `win4` / `win0` triples `(addr, size, parameter_size)` are the walker
-     model's records that C07's `classifyRec` makes frame data / FPO, in file order), record sizes
-     `< 2^32` and `build r = .ok csf`:  `PsizeAgree (Walk.winTables wins) csf a` for every `a`,
-     hence `(Walk.fillSymbolW sf (funcTable sf) (winTables wins) base instr).map projW = fr.fn`.
-   What is missing is only that table-level fact: both tables are `insertWinAll` + `safeP` over the same
-   `(addr, size)` sequence with different tags (parameter size vs. position); `insertWin` never reads
-   the tag, and `Lemmas/SymBridgeTable.lean` (`safeVecP_sim`, `get_sim`) already covers the `safeP`
-   half for any two valuations in which equal values imply equal ranges (true here: `Rec.enc` is
-   injective on `(addr, size, tag)` for sizes `< 2^32`). The run-time tie covers it meanwhile:
-   ~41 000 `symb xwalk wlk` cases per quick run carry STACK WIN records. -/
-
-/-- **`walk_fillW_eq_c11_partial`** — with STACK WIN records: for ANY walker-model STACK WIN tables
-    `wt`, `fillSymbolW` reports exactly C11's function name and base, exactly C11's parameter size
-    whenever the function is a PUBLIC (never overridden) or nothing is reported, and for a FUNC
-    C11's parameter size provided the two models' STACK WIN lookups agree at the address
-    (`PsizeAgree`, the part left open): frame data > FPO > FUNC on both sides. -/
+/-- `walk_fillW_eq_c11_partial` (kept from the previous round; now a step of `walk_fillW_eq_c11`) —
+    for ANY walker-model STACK WIN tables `wt`, `fillSymbolW` reports exactly C11's function name and
+    base, exactly C11's parameter size whenever the function is a PUBLIC (never overridden) or
+    nothing is reported, and for a FUNC C11's parameter size provided the two models' STACK WIN
+    lookups agree at the address (`PsizeAgree`): frame data > FPO > FUNC on both sides. -/
 theorem walk_fillW_eq_c11_partial {sf : Walk.SymFile} {r : Symbolize.Recs} (hrel : FileRel sf r)
     (wt : Walk.WinTables) {csf : Symbolize.SymFile} (hb : Symbolize.build r = .ok csf)
     {base instr : Nat} (hps : base ≤ instr → PsizeAgree wt csf (instr - base))
@@ -131,6 +120,60 @@ theorem walk_fillW_eq_c11_partial {sf : Walk.SymFile} {r : Symbolize.Recs} (hrel
       · by_cases hlt : instr < base
         · rw [if_pos hlt]; exact hres
         · rw [if_neg hlt, hgn]; exact hres
+
+/-- `PsizeAgree` holds for every related pair: both models build the STACK WIN tables with C08's
+    `insertWinAll` (the parser's overlap repair, which never reads the tag) and `safeP`, from the same
+    `(address, size)` sequence (`Lemmas/SymBridgeWin.lean`) -/
+theorem psizeAgree_of_rel {wins : List Win.Rec} {r : Symbolize.Recs} (hwin : WinRel wins r)
+    (hsz : ∀ w ∈ wins, w.size < 2 ^ 32) (hlen : wins.length ≤ 2 ^ 64)
+    {csf : Symbolize.SymFile} (hb : Symbolize.build r = .ok csf) (a : Nat) :
+    PsizeAgree (Walk.winTables wins) csf a :=
+  psize_agree hwin hsz hlen hb a
+
+/-- **`walk_fillW_eq_c11`** — symbol files WITH STACK WIN records: for every walker-model symbol file
+    `sf` with STACK WIN records `wins` (whole lines, any number ≤ 2^64, any type / program-string
+    flag — C07's `classifyRec` decides frame data / FPO / ignored —, overlapping, nested, truncated
+    by the parser's repair, zero-size, overflowing; sizes `< 2^32` as the `u32` field the parser
+    reads) and every C11 record list `r` describing the same FUNC / PUBLIC records (`FileRel`) and
+    the same STACK WIN records (`WinRel`: C11's `win4` / `win0` are the `(address, size,
+    parameter_size)` of the frame-data / FPO lines, in file order), every module base and
+    instruction address: whenever C11's `fill_symbol` answers, the walker model's `fillSymbolW`
+    over its own tables returns exactly C11's `(name, base, parameter size)` — the parameter size
+    of a FUNC overridden by frame data, else FPO, exactly when C11 overrides it — and nothing when
+    C11 reports no function. -/
+theorem walk_fillW_eq_c11 {sf : Walk.SymFile} {r : Symbolize.Recs} (hrel : FileRel sf r)
+    {wins : List Win.Rec} (hwin : WinRel wins r)
+    (hsz : ∀ w ∈ wins, w.size < 2 ^ 32) (hlen : wins.length ≤ 2 ^ 64)
+    {csf : Symbolize.SymFile} (hb : Symbolize.build r = .ok csf)
+    {base instr : Nat} {fr : Symbolize.Frame} (h : Symbolize.fillSymbol csf base instr = .ok fr) :
+    (Walk.fillSymbolW sf (Walk.funcTable sf) (Walk.winTables wins) base instr).map projW = fr.fn :=
+  walk_fillW_eq_c11_partial hrel _ hb (fun _ => psizeAgree_of_rel hwin hsz hlen hb _) h
+
+/-- the canonical C11 reading of a walker-model symbol file with STACK WIN records -/
+def recsOfW (sf : Walk.SymFile) (wins : List Win.Rec) : Symbolize.Recs :=
+  { recsOf sf with win4 := kindOf isFd wins, win0 := kindOf isFpo wins }
+
+theorem recsOfW_rel (sf : Walk.SymFile) (wins : List Win.Rec) :
+    FileRel sf (recsOfW sf wins) ∧ WinRel wins (recsOfW sf wins) :=
+  ⟨⟨(recsOf_rel sf).funcs, (recsOf_rel sf).pubs⟩, ⟨rfl, rfl⟩⟩
+
+/-- **name and base for ANY STACK WIN records** — for every `FileRel`-related pair, whatever STACK
+    WIN records C11's side carries: the walker model's `fillSymbol` (the one `instrOkOf` runs, and
+    the name / base part of `fillSymbolW`) reports C11's function name and base, none iff none -/
+theorem walk_fill_name_base_eq_c11 {sf : Walk.SymFile} {r : Symbolize.Recs} (hrel : FileRel sf r)
+    {csf : Symbolize.SymFile} (hb : Symbolize.build r = .ok csf) {base instr : Nat}
+    {fr : Symbolize.Frame} (h : Symbolize.fillSymbol csf base instr = .ok fr) :
+    (Walk.fillSymbol sf (Walk.funcTable sf) base instr).map (fun g => (nm g.name, g.base)) =
+      fr.fn.map fun t => (t.1, t.2.1) := by
+  rcases fill_core hrel hb h with ⟨g, w, _, _, _, hw, hcore, hfn⟩ | ⟨_, hres⟩
+  · rw [hw, hfn]
+    simp only [wcore, Prod.mk.injEq] at hcore
+    obtain ⟨c1, _, _, c4⟩ := hcore
+    simp only [Option.map_some, c1, c4]
+  · rw [← hres]
+    cases Walk.fillSymbol sf (Walk.funcTable sf) base instr with
+    | none => rfl
+    | some g => rfl
 
 /-- name and base never depend on the STACK WIN tables: `fillSymbolW` and `fillSymbol` report the
     same function name and base, for any tables -/
